@@ -19,6 +19,9 @@ pub struct Rule {
     /// a second conjunct; rules with two conjuncts are built with the crate's own
     /// Rewrite::new_if / and / not / slot_free_in combinators
     pub cond2: Option<(S, u32)>,
+    /// condition: the bindings of the two variables are equal in the e-graph (built with the
+    /// crate's Rewrite::new_if and a closure that calls EGraph::eq)
+    pub cond_eq: Option<(u32, u32)>,
 }
 
 fn v(i: u32) -> Pat {
@@ -51,8 +54,8 @@ pub const FS: S = 92;
 pub const FT: S = 93;
 
 pub fn rule_pool(p: u32) -> Vec<Rule> {
-    let r = |name: &'static str, l: Pat, r: Pat| Rule { name, l, r, cond: None, cond2: None };
-    let rc = |name: &'static str, l: Pat, r: Pat, c: (S, u32)| Rule { name, l, r, cond: Some(c), cond2: None };
+    let r = |name: &'static str, l: Pat, r: Pat| Rule { name, l, r, cond: None, cond2: None, cond_eq: None };
+    let rc = |name: &'static str, l: Pat, r: Pat, c: (S, u32)| Rule { name, l, r, cond: Some(c), cond2: None, cond_eq: None };
     vec![
         r("add-comm", n2("add", v(0), v(1)), n2("add", v(1), v(0))),
         r("add-assoc", n2("add", n2("add", v(0), v(1)), v(2)), n2("add", v(0), n2("add", v(1), v(2)))),
@@ -86,7 +89,14 @@ pub fn rule_pool(p: u32) -> Vec<Rule> {
         r("let-subst", let_(X, v(0), v(1)), Pat::Subst(Box::new(v(0)), Box::new(var(X)), Box::new(v(1)))),
         r("let-intro", n2("add", v(0), v(0)), let_(X, n2("add", var(X), var(X)), v(0))),
         // two side conditions (crate combinators): sum over x of (a + b) with x in neither is p*(a+b) = 0
-        Rule { name: "sum-const-add", l: sum(X, n2("add", v(0), v(1))), r: num(0), cond: Some((X, 0)), cond2: Some((X, 1)) },
+        Rule { name: "sum-const-add", l: sum(X, n2("add", v(0), v(1))), r: num(0), cond: Some((X, 0)), cond2: Some((X, 1)), cond_eq: None },
+        // a - b = 0 if a and b are already known to be equal (all slots of a and b are covered by
+        // the pattern's binders)
+        Rule { name: "sum2-sub-eq", l: sum(X, sum(Y, n2("add", v(0), n1("neg", v(1))))), r: num(0), cond: None, cond2: None, cond_eq: Some((0, 1)) },
+        // a child before a binder
+        r("sumr-intro", n2("mul", v(0), sum(X, v(1))), Pat::node("sumr", vec![], vec![(vec![], v(0)), (vec![X], v(1))])),
+        r("sumr-elim", Pat::node("sumr", vec![], vec![(vec![], v(0)), (vec![X], v(1))]), n2("mul", v(0), sum(X, v(1)))),
+        r("sumr-linear", Pat::node("sumr", vec![], vec![(vec![], v(0)), (vec![X], n2("add", v(1), v(2)))]), n2("add", Pat::node("sumr", vec![], vec![(vec![], v(0)), (vec![X], v(1))]), Pat::node("sumr", vec![], vec![(vec![], v(0)), (vec![X], v(2))]))),
         // a free pattern slot that occurs twice: (a + x) - x = a
         r("add-sub-var", n2("add", n2("add", v(0), var(FS)), n1("neg", var(FS))), v(0)),
         r("mul-var-comm", n2("mul", var(FS), var(FT)), n2("mul", var(FT), var(FS))),
@@ -130,7 +140,16 @@ pub fn random_la(rng: &mut Rng, slots: &[S], depth: usize, binder: &mut S) -> Tm
             }
         };
     }
-    match rng.weighted(&[5, 5, 2, 3, 2]) {
+    match rng.weighted(&[5, 5, 2, 3, 2, 1]) {
+        5 => {
+            let x = *binder;
+            *binder += 1;
+            let mut sl = slots.to_vec();
+            sl.push(x);
+            let r = random_la(rng, slots, depth - 1, binder);
+            let body = random_la(rng, &sl, depth - 1, binder);
+            Tm::node("sumr", vec![], vec![(vec![], r), (vec![x], body)])
+        }
         0 => Tm::node("add", vec![], vec![(vec![], random_la(rng, slots, depth - 1, binder)), (vec![], random_la(rng, slots, depth - 1, binder))]),
         1 => Tm::node("mul", vec![], vec![(vec![], random_la(rng, slots, depth - 1, binder)), (vec![], random_la(rng, slots, depth - 1, binder))]),
         2 => Tm::node("neg", vec![], vec![(vec![], random_la(rng, slots, depth - 1, binder))]),
@@ -213,6 +232,12 @@ pub fn instance_of_left(rule: &Rule, rng: &mut Rng, slots: &[S], binder: &mut S)
         let d = rng.below(3);
         sub.insert(*var, random_la(rng, &sl, d, binder));
     }
+    if let Some((a, b)) = rule.cond_eq {
+        if rng.chance(2, 3) {
+            let ta = sub[&a].clone();
+            sub.insert(b, ta);
+        }
+    }
     // give the rule's bound names fresh names so that several instances never clash
     let t = inst_rule_side(&rule.l, &sub);
     let mut fresh = *binder + 1000;
@@ -244,6 +269,10 @@ pub fn validate_pool(p: u32, n: usize, seed: u64) -> Result<(), String> {
                     }
                 }
                 sub.insert(*var, t);
+            }
+            if let Some((a, b)) = rule.cond_eq {
+                let ta = sub[&a].clone();
+                sub.insert(b, ta);
             }
             let lt = inst_rule_side(&rule.l, &sub);
             let rt = inst_rule_side(&rule.r, &sub);
@@ -280,6 +309,10 @@ pub fn make_rewrite<N: Analysis<LA> + 'static>(rule: &Rule, nm: &mut Naming, pro
         let c1 = slot_free_in::<LA, N>(&n1, &pvar_name(v1));
         let c2 = not(not(slot_free_in::<LA, N>(&n2, &pvar_name(v2))));
         return Rewrite::new_if(rule.name, &l.to_string(), &r.to_string(), and(c1, c2));
+    }
+    if let Some((a, b)) = rule.cond_eq {
+        let (va, vb) = (pvar_name(a), pvar_name(b));
+        return Rewrite::new_if(rule.name, &l.to_string(), &r.to_string(), move |subst: &Subst, eg: &EGraph<LA, N>| eg.eq(&subst[&va], &subst[&vb]));
     }
     let l2 = l.clone();
     let name = rule.name.to_string();
